@@ -4,7 +4,7 @@
    oracle: on every listed domain assignment the energy of the implementation's own
    result equals ordinary arithmetic on the energies of the operands (`denote`). *)
 From Coq Require Import List ZArith QArith Qcanon Bool Arith.
-From Dimod Require Import Base.Util Model.Poly Model.Sym.
+From Dimod Require Import Base.Util Model.Poly Model.Sym Model.SymStore.
 Import ListNotations.
 
 Inductive ores := ONum (q : Qc) | OMdl (c : cls) (t : tab) (o : obs) | OView (t : tab) (o : obs) | OErr (e : err).
@@ -47,3 +47,37 @@ Definition check_oracle (c : case) : bool :=
   end.
 
 Definition check (c : case) : bool := check_corr c && check_oracle c.
+
+(* ---------- comparison objects handed to ConstrainedQuadraticModel.add_constraint ---------- *)
+Inductive ocmp := OCmp (t : tab) (o : obs) (s : csense) (r : Qc) | OCErr (e : err).
+
+Record ccase := mkCCase {
+  cc_n : nat;
+  cc_a : sx;
+  cc_sense : csense;
+  cc_b : sx;
+  cc_res : ocmp;                          (* the stored constraint: lhs variables and biases, sense, rhs *)
+  cc_samples : list (list (label * Qc))
+}.
+
+Definition check_cmp_corr (c : ccase) : bool :=
+  match eval_cmp (cc_a c) (cc_sense c) (cc_b c), cc_res c with
+  | Ok k, OCmp t o s r =>
+      let '(l, s', r') := stored_constraint k in
+      tab_eqb (m_tab l) t && poly_coeff_eqb (cc_n c) (m_poly l) (obs_poly o)
+      && poly_pairs_eqb (cc_n c) (m_poly l) (obs_poly o) && csense_eqb s' s && Qc_eqb r' r
+  | Err e, OCErr e' => err_eqb e e'
+  | _, _ => false
+  end.
+
+(* the stored constraint accepts a sample iff the relation as written holds between the sides *)
+Definition check_cmp_oracle (c : ccase) : bool :=
+  match cc_res c with
+  | OCmp _ o s r =>
+      forallb (fun smp => Bool.eqb (sat_b s (energy_on (obs_poly o) smp) r)
+                                   (sat_b (cc_sense c) (denote (cc_a c) (sample_of_list smp))
+                                                       (denote (cc_b c) (sample_of_list smp)))) (cc_samples c)
+  | OCErr _ => true
+  end.
+
+Definition check_cmp (c : ccase) : bool := check_cmp_corr c && check_cmp_oracle c.
